@@ -26,6 +26,7 @@ type c03Node struct {
 	MM   map[string]map[string]*c03Node
 	Any  any
 	Leaf *int
+	MA   map[string][2]*c03Node // array-valued map: the values hold references
 	// exported but opted out of configuration: dials never lets a source set
 	// these, but every copy of a value carries them along.
 	Skip    *c03Node            `dials:"-"`
@@ -45,12 +46,37 @@ type c03BNode struct {
 	MM    map[string]map[string]*c03BNode
 	Any   any
 	Leaf  *int
+	MA    map[string][2]*c03BNode
 	// (ptrify.Pointerify drops dials:"-" fields before looking at their type,
 	// so the direct *c03BNode here does not make the type recurse)
 	Skip    *c03BNode            `dials:"-"`
 	SkipM   map[string]*c03BNode `dials:"-"`
 	SkipS   []*c03BNode          `dials:"-"`
 	SkipAny any                  `dials:"-"`
+}
+
+// c03Holder / c03BHolder hold nodes BY VALUE (a struct-typed field, the
+// elements of an array and of a slice arena) ahead of the fields that refer
+// to them by pointer. The deep copier registers a by-value struct's address
+// before copying its fields, so pointers to it from inside its own subtree
+// (self-loops, cycles re-entering it) and from anything copied later must
+// resolve to the copy itself.
+type c03Holder struct {
+	Head  c03Node
+	Arr   [2]c03Node
+	Arena []c03Node
+	All   []*c03Node
+	Idx   map[string]*c03Node
+	Any   any
+}
+
+type c03BHolder struct {
+	Head  c03BNode
+	Arr   [2]c03BNode
+	Arena []c03BNode
+	All   []*c03BNode
+	Idx   map[string]*c03BNode
+	Any   any
 }
 
 // c03Priv is held BY VALUE in interface values: a struct with non-zero
@@ -75,10 +101,21 @@ type c03Fam struct {
 	arrSlice                                               reflect.Type // [][2]*node
 	mp                                                     reflect.Type // map[string]*node
 	mm                                                     reflect.Type // map[string]map[string]*node
+	ma                                                     reflect.Type // map[string][2]*node
+	holder                                                 reflect.Type // c03Holder / c03BHolder
+	fMA                                                    int
 	hasNext                                                bool
 	hasPairs                                               bool
 	fID, fNext, fKids, fPair, fPairs, fM, fMM, fAny, fLeaf int
 	fSkip, fSkipM, fSkipS, fSkipAny                        int
+}
+
+func idx0(t reflect.Type, n string) int {
+	sf, ok := t.FieldByName(n)
+	if !ok {
+		return -1
+	}
+	return sf.Index[0]
 }
 
 func c03MakeFam(name string, node reflect.Type) *c03Fam {
@@ -88,6 +125,13 @@ func c03MakeFam(name string, node reflect.Type) *c03Fam {
 	f.arrSlice = reflect.SliceOf(f.arr)
 	f.mp = reflect.MapOf(reflect.TypeOf(""), f.ptr)
 	f.mm = reflect.MapOf(reflect.TypeOf(""), f.mp)
+	f.ma = reflect.MapOf(reflect.TypeOf(""), f.arr)
+	f.fMA = idx0(node, "MA")
+	if name == "B" {
+		f.holder = reflect.TypeOf(c03BHolder{})
+	} else {
+		f.holder = reflect.TypeOf(c03Holder{})
+	}
 	idx := func(n string) int {
 		sf, ok := node.FieldByName(n)
 		if !ok {
@@ -121,6 +165,7 @@ func c03FamOf(name string) *c03Fam {
 //	nil | ptr I | node I (struct value copy) | slice L | arr L[0:2] | map I | mm I |
 //	amap I | aslice I | nilptr | nilmap | nilslice | int I | str I | leaf I | pp I |
 //	time I (time.Time by value; odd I: with a *Location) | priv I (c03Priv by value, Ref -> node I) |
+//	ma I (map[string][2]*node object) |
 //	view I L[lo,hi] ([]*node window Backs[I][lo:hi]) | aview I L[lo,hi] ([]any window ASlices[I][lo:hi])
 type c03AnyPlan struct {
 	K string `json:"k"`
@@ -142,6 +187,7 @@ type c03NodePlan struct {
 	Any    c03AnyPlan `json:"any"`
 	// Leaf: -1 nil; 0..Leafs-1 a shared heap int; 1000+j the address of node j's ID field.
 	Leaf int `json:"leaf"`
+	MA   int `json:"ma"` // index into MAs, -1 nil
 	// the dials:"-" fields
 	Skip    int        `json:"skip"`  // node index, -1 nil
 	SkipM   int        `json:"skipm"` // index into Maps, -1 nil
@@ -158,6 +204,13 @@ type c03Plan struct {
 	AMaps   []map[string]c03AnyPlan `json:"amaps,omitempty"`   // map[string]any objects
 	ASlices [][]c03AnyPlan          `json:"aslices,omitempty"` // []any objects
 	ASpare  []int                   `json:"aspare,omitempty"`  // spare capacity of each []any object
+	// MAs: map[string][2]*node objects (array-valued maps), key -> two node indices
+	MAs []map[string][2]int `json:"mas,omitempty"`
+	// ByVal: plan nodes that live BY VALUE in a holder struct instead of on
+	// the heap: ByVal[0] is holder.Head, ByVal[1..2] holder.Arr[0..1],
+	// ByVal[3..] the elements of holder.Arena. Only used with the holder
+	// entry shapes; see c03AddByValueNodes for the edge discipline.
+	ByVal []int `json:"byval,omitempty"`
 	// Backs: backing arrays of []*node; interface payloads of kind "view"
 	// are windows [lo:hi] into them (overlapping views of one array).
 	Backs [][]int `json:"backs,omitempty"`
@@ -173,6 +226,8 @@ type c03Built struct {
 	aslices [][]any
 	leafs   []*int
 	backs   []reflect.Value // []*node of full length
+	mas     []reflect.Value
+	holder  reflect.Value // *holder, valid when the plan has by-value nodes
 }
 
 func (b *c03Built) nodeOrNil(i int) reflect.Value {
@@ -198,10 +253,31 @@ func c03SortedKeys[V any](m map[string]V) []string {
 func c03Build(p *c03Plan) *c03Built {
 	f := c03FamOf(p.Fam)
 	b := &c03Built{fam: f}
+	b.nodes = make([]reflect.Value, len(p.Nodes))
+	if len(p.ByVal) > 0 {
+		b.holder = reflect.New(f.holder)
+		h := b.holder.Elem()
+		if n := len(p.ByVal) - 3; n > 0 {
+			h.FieldByName("Arena").Set(reflect.MakeSlice(reflect.SliceOf(f.node), n, n))
+		}
+		for k, ni := range p.ByVal {
+			var loc reflect.Value
+			switch {
+			case k == 0:
+				loc = h.FieldByName("Head")
+			case k <= 2:
+				loc = h.FieldByName("Arr").Index(k - 1)
+			default:
+				loc = h.FieldByName("Arena").Index(k - 3)
+			}
+			b.nodes[ni] = loc.Addr()
+		}
+	}
 	for i := range p.Nodes {
-		n := reflect.New(f.node)
-		n.Elem().Field(f.fID).SetInt(int64(100 + i))
-		b.nodes = append(b.nodes, n)
+		if !b.nodes[i].IsValid() {
+			b.nodes[i] = reflect.New(f.node)
+		}
+		b.nodes[i].Elem().Field(f.fID).SetInt(int64(100 + i))
 	}
 	for i := 0; i < p.Leafs; i++ {
 		x := new(int)
@@ -223,6 +299,16 @@ func c03Build(p *c03Plan) *c03Built {
 			spare = p.ASpare[i]
 		}
 		b.aslices = append(b.aslices, make([]any, len(s), len(s)+spare))
+	}
+	for _, m := range p.MAs {
+		mv := reflect.MakeMap(f.ma)
+		for _, k := range c03SortedKeys(m) {
+			arr := reflect.New(f.arr).Elem()
+			arr.Index(0).Set(b.nodeOrNil(m[k][0]))
+			arr.Index(1).Set(b.nodeOrNil(m[k][1]))
+			mv.SetMapIndex(reflect.ValueOf(k), arr)
+		}
+		b.mas = append(b.mas, mv)
 	}
 	for _, bk := range p.Backs {
 		s := reflect.MakeSlice(f.slice, len(bk), len(bk))
@@ -277,6 +363,9 @@ func c03Build(p *c03Plan) *c03Built {
 		}
 		if np.MM >= 0 && np.MM < len(b.mmaps) {
 			n.Field(f.fMM).Set(b.mmaps[np.MM])
+		}
+		if np.MA >= 0 && np.MA < len(b.mas) {
+			n.Field(f.fMA).Set(b.mas[np.MA])
 		}
 		if np.Skip >= 0 {
 			n.Field(f.fSkip).Set(b.nodeOrNil(np.Skip))
@@ -395,6 +484,11 @@ func (b *c03Built) anyValue(a *c03AnyPlan) any {
 			return []any(nil)
 		}
 		return b.aslices[a.I][a.L[0]:a.L[1]]
+	case "ma":
+		if a.I < 0 || a.I >= len(b.mas) {
+			return reflect.Zero(f.ma).Interface()
+		}
+		return b.mas[a.I].Interface()
 	case "nilptr":
 		return reflect.Zero(f.ptr).Interface()
 	case "nilmap":
@@ -446,6 +540,9 @@ func c03GenAny(r *fw.Rand, p *c03Plan, n int, asliceBelow int) c03AnyPlan {
 	if len(p.Backs) > 0 {
 		ks = append(ks, wk{"view", 14})
 	}
+	if len(p.MAs) > 0 {
+		ks = append(ks, wk{"ma", 7})
+	}
 	if p.Leafs > 0 {
 		ks = append(ks, wk{"leaf", 4})
 	}
@@ -486,6 +583,8 @@ func c03GenAny(r *fw.Rand, p *c03Plan, n int, asliceBelow int) c03AnyPlan {
 		a.I = r.Intn(len(p.MMaps))
 	case "amap":
 		a.I = r.Intn(len(p.AMaps))
+	case "ma":
+		a.I = r.Intn(len(p.MAs))
 	case "aslice":
 		a.I = r.Intn(asliceBelow)
 	case "aview":
@@ -576,6 +675,13 @@ func c03GenPlan(r *fw.Rand, fam string, o c03GenOpts) *c03Plan {
 	for i := 0; i < nam; i++ {
 		p.AMaps = append(p.AMaps, nil)
 	}
+	for i := r.Intn(3); i > 0; i-- {
+		m := map[string][2]int{}
+		for _, k := range keys[:r.Range(0, 3)] {
+			m[k] = [2]int{r.Intn(n+1) - 1, r.Intn(n+1) - 1}
+		}
+		p.MAs = append(p.MAs, m)
+	}
 	for i := 0; i < nas; i++ {
 		// lengths are fixed now so that windows ("aview") can be drawn
 		// before the elements are
@@ -598,7 +704,7 @@ func c03GenPlan(r *fw.Rand, fam string, o c03GenOpts) *c03Plan {
 	}
 	for i := range p.Nodes {
 		np := &p.Nodes[i]
-		np.Next, np.M, np.MM, np.Leaf, np.Skip, np.SkipM = -1, -1, -1, -1, -1, -1
+		np.Next, np.M, np.MM, np.Leaf, np.Skip, np.SkipM, np.MA = -1, -1, -1, -1, -1, -1, -1
 		np.SkipAny = c03AnyPlan{K: "nil"}
 		np.Pair = [2]int{-1, -1}
 		if fam == "A" && r.Chance(density+20) {
@@ -644,6 +750,9 @@ func c03GenPlan(r *fw.Rand, fam string, o c03GenOpts) *c03Plan {
 			np.Any = c03GenAny(r, p, n, len(p.ASlices))
 		} else {
 			np.Any = c03AnyPlan{K: "nil"}
+		}
+		if len(p.MAs) > 0 && r.Chance(density) {
+			np.MA = r.Intn(len(p.MAs))
 		}
 		// the dials:"-" fields carry edges like any other field
 		if r.Chance(density) {
@@ -693,5 +802,110 @@ func c03GenPlan(r *fw.Rand, fam string, o c03GenOpts) *c03Plan {
 // c03TrivialPlan is a single node without references (used as "empty"
 // defaults for source-only scenarios).
 func c03TrivialPlan(fam string) *c03Plan {
-	return &c03Plan{Fam: fam, Nodes: []c03NodePlan{{Next: -1, M: -1, MM: -1, Leaf: -1, Skip: -1, SkipM: -1, Pair: [2]int{-1, -1}, Any: c03AnyPlan{K: "nil"}, SkipAny: c03AnyPlan{K: "nil"}}}}
+	return &c03Plan{Fam: fam, Nodes: []c03NodePlan{{Next: -1, M: -1, MM: -1, Leaf: -1, Skip: -1, SkipM: -1, MA: -1, Pair: [2]int{-1, -1}, Any: c03AnyPlan{K: "nil"}, SkipAny: c03AnyPlan{K: "nil"}}}}
+}
+
+// c03AddByValueNodes appends k (1..6) nodes that live by value in a holder
+// (Head, Arr[0..1], Arena[...]) to a plan generated over heap nodes only.
+//
+// Edge discipline (what the deep copier preserves today, by registering a
+// by-value struct's address before it copies the struct's fields, in holder
+// field order Head, Arr, Arena, then All, Idx, Any):
+//   - a by-value node may point at itself, at by-value nodes placed before it
+//     and at heap nodes;
+//   - anything may point at Head (it is registered before anything else is copied);
+//   - heap nodes, shared maps and slices otherwise never point at by-value
+//     nodes (such a pointer could be met before its target was registered:
+//     then the copier allocates a stand-alone duplicate, which is the
+//     order dependence that is only measured, see interior pointers);
+//   - the holder's trailing fields All/Idx/Any refer to every node.
+func c03AddByValueNodes(r *fw.Rand, p *c03Plan, k int) {
+	nHeap := len(p.Nodes)
+	head := nHeap
+	for j := 0; j < k; j++ {
+		self := nHeap + j
+		np := c03NodePlan{Next: -1, M: -1, MM: -1, Leaf: -1, Skip: -1, SkipM: -1, MA: -1, Pair: [2]int{-1, -1},
+			Any: c03AnyPlan{K: "nil"}, SkipAny: c03AnyPlan{K: "nil"}}
+		pick := func() int {
+			switch x := r.Intn(10); {
+			case x < 4:
+				return self
+			case x < 7:
+				return nHeap + r.Intn(j+1) // itself or an earlier by-value node
+			}
+			return r.Intn(nHeap)
+		}
+		if p.Fam == "A" && r.Chance(70) {
+			np.Next = pick()
+		}
+		if r.Chance(60) {
+			np.Kids = make([]int, r.Range(1, 3))
+			for i := range np.Kids {
+				np.Kids[i] = pick()
+			}
+		}
+		if r.Chance(40) {
+			np.Pair = [2]int{pick(), pick()}
+		}
+		if r.Chance(40) {
+			np.Skip = pick()
+		}
+		if r.Chance(30) {
+			np.SkipS = []int{pick(), pick()}
+		}
+		switch r.Intn(6) {
+		case 0:
+			np.Any = c03AnyPlan{K: "ptr", I: pick()}
+		case 1:
+			np.Any = c03AnyPlan{K: "slice", L: []int{pick(), pick()}}
+		case 2:
+			np.Any = c03AnyPlan{K: "arr", L: []int{pick(), pick()}}
+		case 3:
+			np.Any = c03AnyPlan{K: "pp", I: pick()}
+		case 4:
+			np.Any = c03AnyPlan{K: "priv", I: pick()}
+		}
+		if len(p.Maps) > 0 && r.Chance(30) {
+			np.M = r.Intn(len(p.Maps))
+		}
+		if len(p.MAs) > 0 && r.Chance(30) {
+			np.MA = r.Intn(len(p.MAs))
+		}
+		if p.Leafs > 0 && r.Chance(30) {
+			np.Leaf = r.Intn(p.Leafs)
+		}
+		p.Nodes = append(p.Nodes, np)
+		p.ByVal = append(p.ByVal, self)
+	}
+	// a few heap nodes point at Head
+	for i := 0; i < nHeap; i++ {
+		if r.Chance(20) {
+			if p.Fam == "A" && r.Bool() {
+				p.Nodes[i].Next = head
+			} else {
+				p.Nodes[i].Kids = append(p.Nodes[i].Kids, head)
+			}
+		}
+	}
+}
+
+// c03FillHolder sets the holder's trailing fields: All refers to every node
+// (by-value ones first, then the heap nodes), Idx to the by-value ones, Any to
+// a slice of them.
+func c03FillHolder(b *c03Built, p *c03Plan) {
+	h := b.holder.Elem()
+	nh := len(b.nodes) - len(p.ByVal)
+	all := reflect.MakeSlice(b.fam.slice, len(b.nodes), len(b.nodes))
+	for j := range b.nodes {
+		all.Index(j).Set(b.nodes[(j+nh)%len(b.nodes)])
+	}
+	h.FieldByName("All").Set(all)
+	idx := reflect.MakeMap(b.fam.mp)
+	sl := reflect.MakeSlice(b.fam.slice, 0, len(p.ByVal))
+	for k, ni := range p.ByVal {
+		idx.SetMapIndex(reflect.ValueOf(fmt.Sprintf("v%d", k)), b.nodes[ni])
+		sl = reflect.Append(sl, b.nodes[ni])
+	}
+	h.FieldByName("Idx").Set(idx)
+	h.FieldByName("Any").Set(sl)
 }
